@@ -24,6 +24,7 @@ type PropDef struct {
 	ID        string
 	QuickRuns int
 	Race      bool // needs the -race build
+	Variants  int  // >1: run i uses the choice stream of scenario i/Variants with variant i%Variants (fault position)
 	Level     string
 	Rule      string
 	Assume    []string
@@ -58,6 +59,7 @@ type RunResult struct {
 	Exhausted  bool              `json:"exhausted,omitempty"`
 	WallUS     int64             `json:"wall_us"`
 	Races      []string          `json:"races,omitempty"`
+	Variant    int               `json:"variant,omitempty"`
 }
 
 type ReplayFile struct {
@@ -70,7 +72,11 @@ type ReplayFile struct {
 	Trace   []uint32 `json:"choice_trace"`
 	Ops     []string `json:"operations_and_faults"`
 	Note    string   `json:"note,omitempty"`
+	Variant int      `json:"variant,omitempty"`
 }
+
+// curVariant is the variant (fault position) of the run being executed.
+var curVariant int
 
 func propHash(id string) uint64 {
 	h := fnv.New64a()
@@ -175,8 +181,14 @@ func cmdWorker(args []string) int {
 		if *deadline != 0 && time.Now().Unix() >= *deadline {
 			break
 		}
-		rs := vsim.Mix(*seed, propHash(pd.ID), uint64(i))
+		scen, variant := i, 0
+		if pd.Variants > 1 {
+			scen, variant = i/pd.Variants, i%pd.Variants
+		}
+		rs := vsim.Mix(*seed, propHash(pd.ID), uint64(scen))
+		curVariant = variant
 		res := execRun(pd, rs, *tier, vsim.NewChoices(rs), i%*sample == 0)
+		res.Variant = variant
 		res.I = i
 		res.Races = drainRaces()
 		enc.Encode(res)
@@ -221,6 +233,7 @@ func cmdReplay(args []string) int {
 		fmt.Fprintln(os.Stderr, "replay: unknown property", rf.Prop)
 		return 2
 	}
+	curVariant = rf.Variant
 	res := execRun(pd, rf.Seed, rf.Tier, vsim.ReplayChoices(rf.Trace), true)
 	if *verbose {
 		for _, o := range res.Ops {
@@ -288,6 +301,7 @@ func shrinkTrace(pd *PropDef, rf *ReplayFile, budget time.Duration) (*ReplayFile
 			return false
 		}
 		attempts++
+		curVariant = rf.Variant
 		res := execRun(pd, rf.Seed, rf.Tier, vsim.ReplayChoices(cand), true)
 		for _, v := range res.Viol {
 			if v.Prop == rf.Prop && v.Sig == rf.Sig {
@@ -682,7 +696,7 @@ func cmdCheck(args []string) int {
 		h := fnv.New32a()
 		h.Write([]byte(sig))
 		path := filepath.Join(verifDir(), "replays", fmt.Sprintf("%s-%d-%08x.json", pd.ID, seed, h.Sum32()))
-		rf := &ReplayFile{Prop: pd.ID, Tier: *tier, Seed: x.run.Seed, Sig: sig, Msg: x.v.Msg, LogHash: x.run.LogHash, Trace: x.run.Trace, Ops: x.run.Ops}
+		rf := &ReplayFile{Prop: pd.ID, Tier: *tier, Seed: x.run.Seed, Sig: sig, Msg: x.v.Msg, LogHash: x.run.LogHash, Trace: x.run.Trace, Ops: x.run.Ops, Variant: x.run.Variant}
 		if err := writeJSON(path, rf); err != nil {
 			fmt.Fprintln(os.Stderr, "check:", err)
 			return 2
@@ -811,6 +825,14 @@ func writeEvidence(pd *PropDef, tier string, seed uint64, results []RunResult, w
 			"step_budget_exhausted":  exhausted,
 			"other_property_violations_seen": other,
 		},
+	}
+	if x := os.Getenv("UPFSIM_EXTRA_COVERAGE"); x != "" {
+		var extra map[string]any
+		if json.Unmarshal([]byte(x), &extra) == nil {
+			for k, v := range extra {
+				ev["coverage"].(map[string]any)[k] = v
+			}
+		}
 	}
 	os.MkdirAll(filepath.Join(verifDir(), "evidence"), 0o755)
 	return writeJSON(filepath.Join(verifDir(), "evidence", pd.ID+".json"), ev)
